@@ -75,6 +75,8 @@ type rtInst struct {
 	// clean: the whole return path (pre..exit and the library's bookkeeping) ran inside one settled window,
 	// with no API call in flight or issued before the process was quiet again
 	clean bool
+	// until: this instance's behaviour is "run until cancelled" (it only returns because its context ended)
+	until atomic.Bool
 }
 
 // rtBehaviour decides how an instance behaves: returns (runUntilCancelled, exitLatency, err).
@@ -226,6 +228,7 @@ func (w *rtWorld) run(ctx context.Context, gen int) error {
 	}
 	until, lat, err, gated := w.behave(in.n, gen)
 	if until {
+		in.until.Store(true)
 		<-ctx.Done()
 		if err == nil {
 			err = context.Canceled
@@ -933,8 +936,19 @@ func c05Case(c *mon.Case, state, retry, concurrent bool) {
 					startedAny = true
 				}
 			}
+			// the newest instance of the current generation, if it is of the run-until-cancelled kind, was healthy and
+			// running when something cancelled it; with a live container context every such call also starts a successor
+			var lastOfGen *rtInst
+			for _, in := range all {
+				if in.gen == finalGen && (lastOfGen == nil || in.n > lastOfGen.n) {
+					lastOfGen = in
+				}
+			}
 			if !startedAny {
 				c.Violate("survivor", w.kind()+"-current-routine-never-started", "at quiescence the container has a live context and a routine/state, but no instance of the current generation was ever started: %s", desc())
+			} else if cl < 2 && lastOfGen != nil && lastOfGen.until.Load() {
+				c.Count("healthy_instance_survival_checks", 1)
+				c.Violate("survivor", w.kind()+"-current-routine-not-running", "instance #%d of the current generation was running (it only returns when cancelled), the container has a live context, yet it was cancelled and nothing was started in its place: %s", lastOfGen.n, desc())
 			} else if cl >= 2 {
 				_ = started
 				c.Violate("survivor", w.kind()+"-current-routine-not-running", "the current generation runs until cancelled, the container has a live context, yet no live instance exists at quiescence: %s", desc())
@@ -1217,6 +1231,10 @@ func c14Case(c *mon.Case, state, retry bool) {
 			if pre.kind == "success" {
 				forbidden = true
 			}
+			if pre.kind == "running" {
+				// a routine that is running (whatever its predecessors returned) moves over to the new context
+				required = true
+			}
 			if restart {
 				sawRestart = true
 				restartTrue = true
@@ -1230,6 +1248,10 @@ func c14Case(c *mon.Case, state, retry bool) {
 			callStamp, _ = w.setContext("d", cx.cur, restart, "same")
 			if pre.kind == "failed" && !retry {
 				required, forbidden = restart, !restart
+			}
+			if pre.kind == "running" {
+				// the same context again leaves a running routine alone, with either restart flag
+				forbidden = true
 			}
 			if pre.kind == "success" {
 				forbidden = true
@@ -1678,6 +1700,13 @@ func c14ConstructorsCase(c *mon.Case) {
 		opts[0], opts[2] = opts[2], opts[0]
 	}
 	errFirst := fmt.Errorf("error-inst-0")
+	switch r.IntN(3) {
+	case 1:
+		// a routine may fail with context.Canceled (or wrap it) although its own context is live: a failure like any other
+		errFirst = context.Canceled
+	case 2:
+		errFirst = fmt.Errorf("error-inst-0: %w", context.Canceled)
+	}
 	run := func(ctx context.Context) error {
 		n := entries.Add(1)
 		c.Rec("inst", fmt.Sprint("enter ", n), nil)
